@@ -359,6 +359,9 @@ func (sol *Solution[S]) Before(n ast.Node) (S, bool) {
 		}
 		return zero, false
 	}
+	if br, isBr := n.(*ast.BranchStmt); isBr {
+		return sol.beforeBranch(br)
+	}
 	cn, ok := g.cfgNodeOf(n)
 	if !ok {
 		return zero, false
@@ -375,6 +378,79 @@ func (sol *Solution[S]) Before(n ast.Node) (S, bool) {
 		st = sol.l.Step(st, Step{Kind: StNode, Node: loc.b.Nodes[i]})
 	}
 	return st, true
+}
+
+// blockFor finds the live block of the given kind created for stmt.
+func (sol *Solution[S]) blockFor(kind cfg.BlockKind, stmt ast.Node) *cfg.Block {
+	for _, b := range sol.g.CFG.Blocks {
+		if b.Kind == kind && b.Stmt == stmt && sol.has[b] {
+			return b
+		}
+	}
+	return nil
+}
+
+// beforeBranch: go/cfg does not record break/continue/goto as nodes; the state before one is the state after
+// its previous sibling statement, or the entry state of the enclosing body.
+func (sol *Solution[S]) beforeBranch(br *ast.BranchStmt) (S, bool) {
+	var zero S
+	g := sol.g
+	idx, list := g.P.stmtIndex(br)
+	if idx < 0 {
+		return zero, false
+	}
+	if idx > 0 {
+		prev := list[idx-1]
+		if lb, ok := prev.(*ast.LabeledStmt); ok {
+			prev = lb.Stmt
+		}
+		var done *cfg.Block
+		switch prev.(type) {
+		case *ast.IfStmt:
+			done = sol.blockFor(cfg.KindIfDone, prev)
+		case *ast.ForStmt:
+			done = sol.blockFor(cfg.KindForDone, prev)
+		case *ast.RangeStmt:
+			done = sol.blockFor(cfg.KindRangeDone, prev)
+		case *ast.SwitchStmt, *ast.TypeSwitchStmt:
+			done = sol.blockFor(cfg.KindSwitchDone, prev)
+		case *ast.SelectStmt:
+			done = sol.blockFor(cfg.KindSelectDone, prev)
+		case *ast.BlockStmt:
+			return zero, false
+		default:
+			return sol.After(prev)
+		}
+		if done == nil {
+			return zero, false
+		}
+		return sol.in[done], true
+	}
+	// first statement of its list: entry of the enclosing body
+	var b *cfg.Block
+	switch par := g.P.Parent(br).(type) {
+	case *ast.CaseClause:
+		b = sol.blockFor(cfg.KindSwitchCaseBody, par)
+	case *ast.CommClause:
+		b = sol.blockFor(cfg.KindSelectCaseBody, par)
+	case *ast.BlockStmt:
+		switch gp := g.P.Parent(par).(type) {
+		case *ast.IfStmt:
+			if gp.Body == par {
+				b = sol.blockFor(cfg.KindIfThen, gp)
+			} else {
+				b = sol.blockFor(cfg.KindIfElse, gp)
+			}
+		case *ast.ForStmt:
+			b = sol.blockFor(cfg.KindForBody, gp)
+		case *ast.RangeStmt:
+			b = sol.blockFor(cfg.KindRangeBody, gp)
+		}
+	}
+	if b == nil {
+		return zero, false
+	}
+	return sol.in[b], true
 }
 
 // After returns the state right after the CFG node containing n.
